@@ -72,6 +72,14 @@ def inners():
     ]
 
 
+# inner expressions that re-bind the name `q` (bound outside the nest) from its old value
+REBINDS = [
+    ('rebind-python', ('let', 'q', ('py', "q + '!'"), ('py', 'q'))),
+    ('rebind-parser', ('let', 'q', ('seq', [('py', 'q'), ('str', 'a')]), ('py', 'q'))),
+    ('rebind-where', ('let', 'q', ('where', ('re', '[ab]', False), ('py', 'lambda w: w != q')), ('py', 'q'))),
+]
+
+
 WRAPPERS = ['seq', 'group', 'opt', 'zzalt', 'leftempty', 'expect', 'mix']
 
 
@@ -149,7 +157,9 @@ def nesting_case(rec, iname, e0, rules, stmts, wkind, depth, named, bound, where
             k = rng.choice(['seq', 'group', 'opt', 'zzalt', 'leftempty'])
         kinds.append(k)
     inner_e = e0
-    if bound:
+    if bound == 'rebind':
+        pass                    # e0 itself re-binds q from its old value (and nothing reads q afterwards)
+    elif bound:
         inner_e = ('seq', [e0, ('py', 'q')])
     G = build((iname, inner_e), rules, stmts, kinds, bound, named, where)
     G0 = build((iname, inner_e), rules, stmts, [], bound, False, where)
@@ -610,6 +620,13 @@ def run_shard(rec):
             idx += 1
             if rec.mine(idx) and not rec.out_of_time():
                 nesting_case(rec, 'bound-name', ('str', 'a'), {}, [], wkind, depth, False, bound=True)
+    # a let INSIDE the nest re-binds the name bound outside it and works the new value out from the old one
+    for rname, e0 in REBINDS:
+        for wkind in ('seq', 'opt', 'mix'):
+            for depth in depths:
+                idx += 1
+                if rec.mine(idx) and not rec.out_of_time():
+                    nesting_case(rec, rname, e0, {}, [], wkind, depth, False, bound='rebind')
     # nests in class bodies reading a let member / a field of the class
     for variant in ('let-read', 'let-count', 'let-where', 'field-read', 'field-count'):
         for wkind in ('seq', 'opt', 'mix'):
@@ -665,5 +682,7 @@ def replay(rec, rep):
         if iname == case.get('inner'):
             return nesting_case(rec, iname, e0, rules, stmts, case['wrapper'], case['depth'], case.get('named', False), False,
                                 case.get('where', 'rule'))
+    if case.get('inner') in dict(REBINDS):
+        return nesting_case(rec, case['inner'], dict(REBINDS)[case['inner']], {}, [], case['wrapper'], case['depth'], False, 'rebind')
     if case.get('inner') == 'bound-name':
         nesting_case(rec, 'bound-name', ('str', 'a'), {}, [], case['wrapper'], case['depth'], False, True)
